@@ -217,10 +217,54 @@ def r5_context_pairing(ctx):
     ctx.ob(gc.where, "a lazy table answers the 'header' context from the header it was read with", ok, "", key="C05-R5|lazy-context")
 
 
+_INDEXED = ("bionumpy.bnpdataclass.lazybnpdataclass", "bionumpy.io.delimited_buffers", "bionumpy.io.file_buffers", "bionumpy.io.one_line_buffer", "bionumpy.io.named_text_buffer",
+            "bionumpy.io.bam", "bionumpy.io.vcf_buffers", "bionumpy.io.multiline_buffer", "bionumpy.io.fastq_buffer", "bionumpy.io.buffers.sam")
+
+
+def r6_index_forwarding(ctx):
+    """Row selection of a lazily read table goes through a chain of __getitem__ methods (lazy class -> ItemGetter -> buffer -> extractor) while
+    the eager table is indexed by NumPy directly.  They agree for every index NumPy accepts only if each link hands the index on unchanged:
+    (a) the index parameter is not converted (a list of bools turned into integers selects rows 0/1; (b) a scalar is wrapped into a one-element
+    list, never into the window i:i+1 (empty for i = -1); (c) the tables shared between a table and its selections are not written in place."""
+    ix = ctx.index
+    n = 0
+    for mod in _INDEXED:
+        if mod not in ix.modules:
+            continue
+        for fi in ix.module(mod).functions.values():
+            if fi.qualname.split(".")[-1] != "__getitem__" or len(fi.params) < 2:
+                continue
+            n += 1
+            idx = fi.params[1]
+            for w in [x for x in ast.walk(fi.node) if isinstance(x, ast.Assign) and any(isinstance(t, ast.Name) and t.id == idx for t in x.targets)]:
+                v = w.value
+                if isinstance(v, ast.List) and len(v.elts) == 1 and u(v.elts[0]) == idx:
+                    ok = True
+                elif any(isinstance(c, ast.Call) and (u(c.func) in ("np.asarray", "np.array", "np.asanyarray", "int", "list", "tuple", "np.flatnonzero", "np.nonzero") or
+                                                      u(c.func).endswith(".astype")) for c in ast.walk(v)):
+                    ok = False
+                else:
+                    raise Unrecognised(f"{fi.where}: the index is rewritten in a form the checker cannot classify: {u(w)}")
+                ctx.ob(fi.where, "the row index is handed on as given (only a scalar may be wrapped into a one-element list): converting it changes what a boolean "
+                       "mask given as a list selects", ok, u(w), key=f"C05-R6|index-converted|{mod}|{fi.qualname}")
+            for sub in [x for x in ast.walk(fi.node) if isinstance(x, ast.Subscript)]:
+                for sl in (sub.slice.elts if isinstance(sub.slice, ast.Tuple) else [sub.slice]):
+                    if isinstance(sl, ast.Slice) and sl.lower is not None and sl.upper is not None and u(sl.lower) == idx:
+                        d = sym.poly(sl.upper) - sym.poly(sl.lower)
+                        if d.is_const() and d.const_value() >= 1:
+                            ctx.ob(fi.where, "a scalar row index is not rewritten as the window i:i+k (empty or short for negative i, which NumPy and the eager "
+                                   "table accept)", False, u(sub), key=f"C05-R6|index-window|{mod}|{fi.qualname}")
+            ctx.ob(fi.where, "index handed on unchanged", True, "", key=f"C05-R6|scanned|{mod}|{fi.qualname}")
+    ctx.floor("__getitem__ links of the lazy selection chain", n, 8)
+    from .c20 import r3_self_array_writes
+    r3_self_array_writes(ctx)
+
+
 RULES = [
     ("C05-R1", r1_aligned_views),
     ("C05-R2", r2_invalidation),
     ("C05-R3", r3_same_decision_same_accessor),
     ("C05-R4", r4_shared),
     ("C05-R5", r5_context_pairing),
+    ("C05-R6", r6_index_forwarding),
 ]
